@@ -42,6 +42,8 @@ type Compiler struct {
 	optimizer     *Optimizer
 	macroExpander *MacroExpander
 	loopStack     []loopContext
+	// names of the functions called by the code compiled since the last Reset
+	calledFunctions []string
 }
 
 // NewCompiler creates a new compiler instance
@@ -75,7 +77,23 @@ func (c *Compiler) Reset() {
 	c.symbolTable = NewGlobalSymbolTable()
 	c.labelCounter = 0
 	c.loopStack = nil
+	c.calledFunctions = nil
 	// Keep the optimizer with its current settings
+}
+
+// UnsupportedCalls returns the functions that the code compiled since the
+// last Reset calls and the VM does not have. The VM calls its built-ins by
+// name and nothing else, so such a call can only fail at run time with
+// "undefined function"; the interpreter, whose function table is larger,
+// may well know the name.
+func (c *Compiler) UnsupportedCalls() []string {
+	var missing []string
+	for _, name := range c.calledFunctions {
+		if !vm.HasBuiltin(name) {
+			missing = append(missing, name)
+		}
+	}
+	return missing
 }
 
 // Compile compiles an AST module to bytecode
@@ -1054,6 +1072,8 @@ func (c *Compiler) compileFunctionCall(expr *ast.FunctionCallExpr) error {
 		}
 	}
 
+	c.calledFunctions = append(c.calledFunctions, expr.Name)
+
 	// Push function name first (it will be at bottom of stack)
 	fnNameIdx := c.addConstant(vm.StringValue{Val: expr.Name})
 	c.emitWithOperand(vm.OpPush, uint32(fnNameIdx))
@@ -1552,6 +1572,7 @@ func (c *Compiler) compileAsyncExpr(expr *ast.AsyncExpr) error {
 
 	// Merge constants from body compiler
 	c.constants = bodyCompiler.constants
+	c.calledFunctions = append(c.calledFunctions, bodyCompiler.calledFunctions...)
 
 	// Emit OpAsync with body length, followed by body bytecode
 	bodyLen := uint32(len(bodyCompiler.code))
